@@ -1,11 +1,13 @@
 import Pw.C01.Driver
 import Pw.C08.Driver
+import Pw.C09.Driver
 open Proto
 
 /-- all request handlers; each property contributes `CNN.handlers` -/
 def handlers : List (String × Handler) :=
   C01.handlers
   ++ C08.handlers
+  ++ C09.handlers
 
 def dispatch (line : String) : String :=
   let (fn, args) := parseLine line
